@@ -148,7 +148,7 @@ fn op(c: &mut Cur, delivery_only: bool) -> Op {
             let n = 1 + c.u8() % 2;
             Op::MergeCommit { r, from: c.u8(), edit: (0..n).map(|_| edit_step(c)).collect() }
         }
-        _ => Op::Unstage { r },
+        _ => Op::Resubmit { r },
     }
 }
 
